@@ -119,6 +119,10 @@ func (msg MsgTransferNFT) ValidateBasic() error {
 		return errormod.Wrapf(sdkerrors.ErrInvalidAddress, "invalid recipient address (%s)", err)
 	}
 
+	if err := ValidateTokenURI(msg.URI); err != nil {
+		return err
+	}
+
 	if len(msg.Data) != 0 && Modified(msg.Data) && !gjson.Valid(msg.Data) {
 		return errormod.Wrap(sdkerrors.ErrJSONUnmarshal, "invalid data, must be a JSON string or empty")
 	}
